@@ -6,9 +6,11 @@ import (
 	"bytes"
 	"context"
 	"fmt"
+	"github.com/libp2p/go-libp2p/core/event"
 	"github.com/libp2p/go-libp2p/p2p/host/eventbus"
 	"os"
 	"sort"
+	"sync/atomic"
 	"time"
 
 	ipfslog "berty.tech/go-ipfs-log"
@@ -45,6 +47,8 @@ type rpRun struct {
 	res  *Result
 	bid  string
 	step int
+	// the step as the observer of replicated events reads it (it runs beside the driver)
+	stepSeen atomic.Int64
 
 	w       *sim.World
 	nodes   map[string]*sim.Node
@@ -665,6 +669,7 @@ func (r *rpRun) run(b Behaviour, idx int) {
 	var prev map[string]interface{}
 	for si, st := range b.Steps {
 		r.step = si
+		r.stepSeen.Store(int64(si))
 		if err := r.apply(st, prev); err != nil {
 			if err == errDriftR || mutant {
 				r.res.Stats["drift"]++
@@ -712,6 +717,7 @@ func (r *rpRun) run(b Behaviour, idx int) {
 		return
 	}
 	r.step = -1
+	r.stepSeen.Store(-1)
 	r.res.Comparisons++
 	want, got := r.reach(final), r.logIDs()
 	for _, id := range want {
@@ -787,40 +793,79 @@ func (r *rpRun) run(b Behaviour, idx int) {
 }
 
 // observeReplicated (C16): a replicated event announces only entries the store holds, and shows, when the event is
-// received. It returns the function that stops the observer.
+// received. It returns the function that stops the observer and hands its findings to the result.
+//
+// The observer looks at the store that emits the events (the replica as it is when the observer is started: the driver
+// replaces r.a when it stops and starts the replica, and the started one has an empty log until its Load is done), and it
+// looks while the emitter is still inside Emit: two unbuffered subscriptions, the second of which is read only after the
+// check, so the store's main loop cannot go on - and the driver cannot see the replica at rest and stop it - before the
+// check is done. Findings are kept by the observer and merged by the stop function, which waits for the observer to end.
 func (r *rpRun) observeReplicated() func() {
-	sub, err := r.nodes["a"].Bus().Subscribe(new(stores.EventReplicated), eventbus.BufSize(0))
+	a, bid := r.a, r.bid
+	ids := map[string]int{}
+	for h, id := range r.ids {
+		ids[h] = id
+	}
+	bus := r.nodes["a"].Bus()
+	s1, err := bus.Subscribe(new(stores.EventReplicated), eventbus.BufSize(0))
 	if err != nil {
 		return func() {}
 	}
+	s2, err := bus.Subscribe(new(stores.EventReplicated), eventbus.BufSize(0))
+	if err != nil {
+		s1.Close()
+		return func() {}
+	}
 	octx, ocancel := context.WithCancel(context.Background())
+	done := make(chan struct{})
+	var found []Violation
+	comparisons := 0
 	go func() {
-		defer sub.Close()
+		defer close(done)
+		defer s1.Close()
+		defer s2.Close()
 		for {
+			var e interface{}
+			var other event.Subscription
 			select {
 			case <-octx.Done():
 				return
-			case e := <-sub.Out():
-				evt, ok := e.(stores.EventReplicated)
-				if !ok || evt.Address.String() != r.a.Addr {
-					continue
-				}
-				all := r.a.S.(orbitdb.KeyValueStore).All()
+			case e = <-s1.Out():
+				other = s2
+			case e = <-s2.Out():
+				other = s1
+			}
+			if evt, ok := e.(stores.EventReplicated); ok && evt.Address.String() == a.Addr {
+				all := a.S.(orbitdb.KeyValueStore).All()
+				oplog := a.S.OpLog()
 				for _, en := range evt.Entries {
-					r.res.Comparisons++
-					_, inLog := r.a.S.OpLog().Get(en.GetHash())
+					comparisons++
+					_, inLog := oplog.Get(en.GetHash())
 					key := ""
 					if op, err := operation.ParseOperation(en); err == nil && op.GetKey() != nil {
 						key = *op.GetKey()
 					}
 					if _, inView := all[key]; !inLog || !inView {
-						r.violate("replicated-event", fmt.Sprintf("a replicated event announces entry %d (key %s) which the store does not hold when the event is received (in log: %v, in view: %v)", r.ids[en.GetHash().String()], key, inLog, inView), nil, nil)
+						found = append(found, Violation{Property: r.in.Property, Kind: "replicated-event", Behaviour: bid, Step: int(r.stepSeen.Load()),
+							Detail: fmt.Sprintf("a replicated event announces entry %d (key %s) which the store does not hold when the event is received (in log: %v, in view: %v)", ids[en.GetHash().String()], key, inLog, inView)})
 					}
 				}
 			}
+			select {
+			case <-octx.Done():
+				return
+			case <-other.Out():
+			}
 		}
 	}()
-	return ocancel
+	return func() {
+		ocancel()
+		<-done
+		r.res.Comparisons += comparisons
+		for _, v := range found {
+			r.res.violate(v)
+		}
+	}
 }
 
 // viewShowsLog: the view shows what the log holds (every entry of these DAGs writes its own key)
